@@ -412,7 +412,8 @@ class Shadow:
         rng = self.rng
         comps = []
         for _ in range(rng.choice([1, 1, 2, 3, 5, 12])):
-            c = rng.choice(['a', 'bb', 'target', '..', '.', 'x' * rng.choice([10, 100, 200, 249]), 'dir', 'é' if udf else 'e'])
+            c = rng.choice(['a', 'bb', 'target', '..', '.', 'x' * rng.choice([10, 100, 200, 249]), 'dir', 'é' if udf else 'e',
+                            'привет' if udf else 'p', '日本語' if udf else 'n'])
             comps.append(c)
         s = '/'.join(comps)
         if rng.random() < 0.3:
@@ -531,6 +532,26 @@ def directed(cfg):
                                                      dict({'op': 'addfp', 'cid': 2001, 'n': 9, 'iso': ip + '/DEEPA/X.;1', 'rr': 'x'},
                                                           **({'joliet': op_ + '/deepa/x'} if cfg.get('joliet') else {}))]))
         out.append(('reloc-remove-readd', chain + [deep('DEEP', 'deep'), rmdeep('DEEP'), deep('DEEP', 'deep'), deep('DEEQ', 'q' * 200), rmdeep('DEEQ')]))
+    # three copies of the primary volume descriptor, then the root directory grows and moves
+    out.append(('three-pvds-root-grows', [{'op': 'duppvd'}, {'op': 'duppvd'}, addfp(root, 'FIRST.;1', 'first', n=3)] +
+                [addfp(root, 'G%04d.;1' % i, 'g%04d' % i, n=0) for i in range(50)] + [adddir(root, 'LATE', 'late')]))
+    # a path table of more than two sectors (4096 bytes) that shrinks again across the boundary
+    # (10 + 16 k bytes with 8-character identifiers: 4122, 4106, 4090 bytes for k = 257, 256, 255)
+    many = [adddir(root, 'PPPPP%03d' % i, 'ppppp%03d' % i) for i in range(258)]
+    out.append(('path-table-just-above-two-sectors', many + [rm('rmdir', root, 'PPPPP%03d' % i, 'ppppp%03d' % i) for i in (257, 100)]))
+    out.append(('path-table-back-to-two-sectors', many + [rm('rmdir', root, 'PPPPP%03d' % i, 'ppppp%03d' % i) for i in (257, 100, 256, 3)]))
+    # Joliet directory of two sectors next to an ISO9660 directory of one (long UCS-2 names, short identifiers)
+    out.append(('joliet-two-sectors', [addfp(root, 'F%02d.;1' % i, 'file-%02d-with-a-long-joliet-name-xxxxxxxxxx' % i, n=60 + i, rr='f%02d' % i) for i in range(30)]))
+    if cfg.get('udf'):
+        # a directory that exists in UDF only is removed and made again (lookups in between must not be remembered)
+        out.append(('udf-only-dir-recreated', [{'op': 'adddir', 'udf': '/dir1'}, {'op': 'addfp', 'cid': 2900, 'n': 4, 'udf': '/dir1/a'},
+                                               {'op': 'rmfile', 'ns': 'u', 'path': '/dir1/a'}, {'op': 'rmdir', 'udf': '/dir1'},
+                                               {'op': 'adddir', 'udf': '/dir1'}, {'op': 'addfp', 'cid': 2901, 'n': 6, 'udf': '/dir1/foo'}]))
+    if cfg.get('udf'):
+        # File Identifiers spanning three and more sectors: every crossing carries part of a descriptor over
+        out.append(('udf-fids-many-sectors', [{'op': 'adddir', 'udf': '/wide'}] +
+                    [dict({'op': 'addfp', 'cid': 3000 + i, 'n': 1, 'udf': '/wide/%03d%s' % (i, 'x' * 250)}) for i in range(90)] +
+                    [{'op': 'addsym', 'udf': '/wide/link', 'utarget': '../docs/привет/日本語/readme'}]))
     if cfg.get('udf'):
         # UDF File Identifiers: parent 40 bytes + 2 x 44 + 40 x 48 = 2048 exactly, then the list continues
         def uf(name, n=1):
